@@ -70,6 +70,8 @@ INTERFACES = dict(
 )
 BIND = dict(I1=[("A", "in")], I2=[("A", "in"), ("B", "out")], I3=[("B", "in"), ("B", "out")], I4=[],
             I5=[("A", "in")])
+# names as they appear in the configuration (punctuation is legal in ACL names)
+REAL = dict(A="A", B="B.v2:x", S="S-1_x")
 SECTIONS = ["A", "B", "S", "G1", "G2", "G1b", "I1", "I2", "I3", "I4", "I5", "N_line", "N_nested", "N_bang",
             "N_vty"]
 
@@ -81,9 +83,9 @@ def section_text(name, platform, w):
         if body is None:
             return None
         if platform == "ios":
-            head = f"ip access-list {'standard' if name == 'S' else 'extended'} {name}"
+            head = f"ip access-list {'standard' if name == 'S' else 'extended'} {REAL[name]}"
         else:
-            head = f"ip access-list {name}"
+            head = f"ip access-list {REAL[name]}"
         return "\n".join([head] + [ind + b for b in body])
     if name in GROUPS:
         gname = "G1" if name == "G1b" else name
@@ -91,7 +93,9 @@ def section_text(name, platform, w):
             f"object-group ip address {gname}"
         return "\n".join([head] + [ind + b for b in GROUPS[name][platform]])
     if name in INTERFACES:
-        return "\n".join([f"interface Ethernet1/{name[1]}"] + [ind + b for b in INTERFACES[name]])
+        lines = [b.replace("access-group A ", f"access-group {REAL['A']} ")
+                  .replace("access-group B ", f"access-group {REAL['B']} ") for b in INTERFACES[name]]
+        return "\n".join([f"interface Ethernet1/{name[1]}"] + [ind + b for b in lines])
     if name == "N_line":
         return "hostname R-1"
     if name == "N_nested":
@@ -172,19 +176,18 @@ def check(platform, arr, w, names, ctx):
                 (inputs if direction == "in" else outputs)[acl].add(f"interface Ethernet1/{s[1]}")
     kw = dict(platform=platform, indent=" " * w)
     if names is not None:
-        kw["names"] = names
+        kw["names"] = [REAL[n] for n in names]
     with capture_logs(logging.WARNING):
         try:
             got = cisco_acl.acls(config, **kw)
         except Exception as ex:  # noqa
             ctx.viol("acls:exception", case, repr(ex), "list of Acl")
             return
-    if [a.name for a in got] != acl_names:
-        ctx.viol("acls:names_or_order", case, [a.name for a in got], acl_names)
+    if [a.name for a in got] != [REAL[n] for n in acl_names]:
+        ctx.viol("acls:names_or_order", case, [a.name for a in got], [REAL[n] for n in acl_names])
         return
     rd = Reader(platform)
-    for acl in got:
-        nm = acl.name
+    for acl, nm in zip(got, acl_names):
         bad = {}
         want_type = "standard" if nm == "S" else "extended"
         if acl.type != want_type:
